@@ -267,6 +267,17 @@ func c20Extras(c *Ctx, mer, ana *ssa.Function, withHelpers func(*ssa.Function) [
 						isProc = true
 					}
 				}
+				// ... or the function handed to a helper that walks the nodes
+				for _, d := range deepDefs(ci.Common().Value, append([]*ssa.Function{mer}, fns...)) {
+					if mc, isMC := d.(*ssa.MakeClosure); isMC && mc.Fn == ssa.Value(proc) {
+						isProc = true
+					}
+					for _, d2 := range varOrigins(mer, d) {
+						if mc, isMC := d2.(*ssa.MakeClosure); isMC && mc.Fn == ssa.Value(proc) {
+							isProc = true
+						}
+					}
+				}
 			}
 			if !isProc {
 				return
@@ -281,18 +292,25 @@ func c20Extras(c *Ctx, mer, ana *ssa.Function, withHelpers func(*ssa.Function) [
 			}
 		})
 	}
+	// the function that walks the nodes: Mermaid itself, or the helper it hands the per-node function to
+	host := mer
+	for _, s := range sites {
+		if flow.InCycle(s.in.Block()) {
+			host = s.in.Parent()
+		}
+	}
 	var inLoop, before []site
 	for _, s := range sites {
-		if s.in.Parent() == mer && flow.InCycle(s.in.Block()) {
+		if s.in.Parent() == host && flow.InCycle(s.in.Block()) {
 			inLoop = append(inLoop, s)
-		} else if s.in.Parent() == mer {
+		} else if s.in.Parent() == host {
 			before = append(before, s)
 		}
 	}
 	if len(inLoop) != 1 {
 		return
 	}
-	L := flow.InnermostLoop(flow.Loops(mer), inLoop[0].in.Block())
+	L := flow.InnermostLoop(flow.Loops(host), inLoop[0].in.Block())
 	if L == nil {
 		return
 	}
